@@ -3447,6 +3447,12 @@ static Node *primary(Token **rest, Token *tok) {
   if (equal(tok, "_Alignof")) {
     Node *node = unary(rest, tok->next);
     add_type(node);
+    // GNU: for an lvalue that names a declared object or member the
+    // result is the alignment of the declaration (_Alignas, packed).
+    if (node->kind == ND_VAR && node->var->align)
+      return new_ulong(node->var->align, tok);
+    if (node->kind == ND_MEMBER && !node->member->is_bitfield && node->member->align)
+      return new_ulong(node->member->align, tok);
     return new_ulong(node->ty->align, tok);
   }
 
